@@ -108,18 +108,35 @@ Definition parent (s : string) : option string :=
 
 Definition MD : string := ".md".
 
-Definition key_from_file_name (name : string) : string := trim_end_matches MD name.
+(* `strip_md` (model.rs:138-142, fn at 140): `name.strip_suffix(".md").unwrap_or(name)` - a file name or a
+   link url names a note with or without the extension; ONE extension is taken off (`x.md.md` is
+   the file of the note `x.md`).  The pinned tree had `trim_end_matches(".md")` here, which made
+   `x.md.md` and `x.md` one note (findings F-C14-5 / F14-double-md, repaired). *)
+Definition strip_md (name : string) : string := strip_suffix_once MD name.
+
+(* `Key::name` (model.rs:51-56): the text is the key - state keys (Graph::import, Database::new)
+   and the urls of the links the graph holds (GraphInline::ref_key, normalize) are keys already *)
+Definition key_name (name : string) : string := name.
+
+(* `Key::from_file_name` (model.rs:58-60) *)
+Definition key_from_file_name (name : string) : string := strip_md name.
 
 Definition key_parent (k : string) : string :=
   match parent k with Some p => p | None => "" end.
 
-(* as found in the pinned tree: `RelativePath::new(relative_to).join(key)` *)
+(* as found in the pinned tree: `RelativePath::new(relative_to).join(key)` (the url stripped as today) *)
 Definition from_rel_link_url_as_found (url rel : string) : string :=
-  rjoin rel (trim_end_matches MD url).
+  rjoin rel (strip_md url).
 
-(* after `fix:` R4: `join_normalized` *)
+(* after `fix:` R4: `join_normalized` (model.rs:62-70) *)
 Definition from_rel_link_url (url rel : string) : string :=
-  join_normalized rel (trim_end_matches MD url).
+  join_normalized rel (strip_md url).
+
+(* `ref_url` (model.rs:144-152, fn at 146): the url a note link is written with - the key-like url plus the
+   configured extension; a url that itself ends in `.md` gets an extension also where none is
+   configured, so that `strip_md` of what is written is the url again *)
+Definition ref_url (url ext : string) : string :=
+  if sempty ext && ends_with MD url then url +++ MD else url +++ ext.
 
 Definition to_rel_link_url (key rel : string) : string := relative rel key.
 
